@@ -194,7 +194,7 @@ def generate(rng, seed, size):
                 v["fixed"] = canon if canon is not None else (casing.convert(ident, style) if style else ident)
             else:
                 nf = rng.randint(1, 3)
-                interp = rng.random() < 0.55 and not disabled
+                interp = rng.random() < 0.55 and not disabled and not (not robust and 11 <= ei < 16)
                 if kind == "tuple" and interp and rng.random() < 0.06:
                     nf = rng.randint(11, 13)  # positional indices with two digits
                 if kind == "named":
@@ -229,6 +229,24 @@ def generate(rng, seed, size):
                     v["attrs"] = attrs
                     v["fixed"] = canon if canon is not None else (casing.convert(ident, style) if style else ident)
             variants.append(v)
+        # prefixes chosen with the variants in view: a brace in the prefix (only legal when no name is a format
+        # literal), or a prefix that equals the beginning of one of the names it is prepended to
+        has_interp = any(v["literal"] is not None for v in variants)
+        if not robust and 11 <= ei < 16:
+            # systematic: enums 11..15 have fixed names only and a prefix with braces in it
+            # (an unmatched closing brace, or `{x}`, in the prefix is rejected by the macro: outside the domain)
+            prefix = ["{", "{{x", "x{", "{{", "é{"][ei - 11]
+        elif not robust:
+            r = rng.random()
+            if r < 0.08 and not has_interp:
+                prefix = rng.choice(["{", "{{x", "x{"])
+            elif r < 0.2:
+                named = [v["fixed"] for v in variants if v["fixed"] and len(v["fixed"]) >= 2]
+                if named:
+                    nm = rng.choice(named)
+                    cand = nm[: rng.randint(1, min(3, len(nm)))]
+                    if not has_interp or ("{" not in cand and "}" not in cand):
+                        prefix = cand
         uses_lt = any("&'a str" in v["tys"] for v in variants)
         decl = "<'a>" if uses_lt else ""
         inst = "<'static>" if uses_lt else ""
@@ -260,6 +278,7 @@ def generate(rng, seed, size):
         for v in variants:
             lines = (["#[strum(disabled)]"] if v["disabled"] else []) + list(v["attrs"])
             if not robust:
+                lines = noise.fold_disabled(rng, lines)
                 lines = noise.place(rng, lines, noise.variant_noise(rng, 0.25, False))
             for a in lines:
                 out.append("    %s\n" % a)
